@@ -486,3 +486,66 @@ Qed.
 Lemma scmp_flip fixed strict v1 v2 :
   good v1 -> good v2 -> scmp fixed strict v2 v1 = flip_res (scmp fixed strict v1 v2).
 Proof. apply (scmp_flip_aux fixed (S (length v1 + length v2))). lia. Qed.
+
+(* ---------------------------------------------------------------- accepted names always compare *)
+
+Lemma cmp_loop_defined strict c1 : forall c2,
+  Forall nometa c1 ->
+  (exists c, cmp_loop strict c1 c2 = Ok c) \/ (strict = true /\ cmp_loop strict c1 c2 = Err Unsortable).
+Proof.
+  induction c1 as [|x r1 IH]; intros [|y r2] H1; cbn [cmp_loop]; eauto.
+  inversion H1 as [|? ? Hx Hr1]; subst.
+  assert (E : exists r, cmp_component x y = Ok r) by (rewrite (cmp_component_alt x y Hx); eauto).
+  destruct E as [[i d] ->].
+  destruct d; [now apply IH| |];
+    (destruct strict; [|simpl; eauto]; destruct i; simpl; eauto;
+     destruct (is_nil r1 || is_nil r2); eauto; destruct (starts_with x y); eauto; destruct (starts_with y x); eauto).
+Qed.
+
+Lemma sec_ter_defined (rec : str -> str -> res comparison) s1 t1 s2 t2 :
+  (s1 <> [] -> s2 <> [] -> exists c, rec s1 s2 = Ok c) ->
+  (s1 <> [] \/ s2 <> [] \/ t1 <> [] \/ t2 <> [] -> exists c, rec t1 t2 = Ok c) ->
+  exists c, sec_ter rec s1 t1 s2 t2 = Ok c.
+Proof.
+  intros Hs Ht. unfold sec_ter.
+  destruct s1 as [|a s1], s2 as [|b s2], t1 as [|c t1], t2 as [|d t2]; simpl; eauto;
+    try (apply Ht; intuition congruence);
+    (destruct (Hs ltac:(congruence) ltac:(congruence)) as [[| |] ->]; eauto; apply Ht; intuition congruence).
+Qed.
+
+Lemma scmp_defined_aux fixed n : forall v1 v2 strict,
+  length v1 + length v2 < n -> good v1 -> good v2 ->
+  (exists c, scmp fixed strict v1 v2 = Ok c) \/ (strict = true /\ scmp fixed strict v1 v2 = Err Unsortable).
+Proof.
+  induction n as [|n IH]; intros v1 v2 strict L G1 G2; [lia|].
+  rewrite (scmp_unfold fixed strict v1 v2).
+  destruct G1 as [W1 [p1 [s1 [t1 [E1 P1]]]]]. destruct G2 as [W2 [p2 [s2 [t2 [E2 P2]]]]].
+  rewrite E1, E2.
+  destruct (good_parts v1 p1 s1 t1) as (C1 & Gs1 & Gt1); [split; eauto 6|assumption|].
+  destruct (good_parts v2 p2 s2 t2) as (C2 & Gs2 & Gt2); [split; eauto 6|assumption|].
+  pose proof (split_facts _ _ _ _ E1) as (_ & _ & _ & Ls1 & Lt1 & N1).
+  pose proof (split_facts _ _ _ _ E2) as (_ & _ & _ & Ls2 & Lt2 & N2).
+  assert (X : exists c, sec_ter (scmp fixed false) s1 t1 s2 t2 = Ok c).
+  { apply sec_ter_defined.
+    - intros A B. specialize (Ls1 A). specialize (Ls2 B).
+      destruct (IH s1 s2 false) as [?|[? _]]; auto; [lia|discriminate].
+    - intros A.
+      assert (length t1 + length t2 < length v1 + length v2).
+      { destruct t1 as [|a t1]; [destruct t2 as [|b t2]|].
+        - simpl. destruct v1 as [|x v1]; [|simpl; lia]. destruct v2 as [|y v2]; [|simpl; lia].
+          destruct (N1 eq_refl), (N2 eq_refl). subst. intuition congruence.
+        - assert (length (b :: t2) < length v2) by (apply Lt2; congruence). simpl in *. lia.
+        - assert (length (a :: t1) < length v1) by (apply Lt1; congruence).
+          destruct t2 as [|b t2]; [simpl in *; lia|].
+          assert (length (b :: t2) < length v2) by (apply Lt2; congruence). simpl in *. lia. }
+      destruct (IH t1 t2 false) as [?|[? _]]; auto; [lia|discriminate]. }
+  destruct (str_eqb p1 p2); [now left|].
+  unfold cmp_primaries. destruct (cmp_loop_defined strict (split_dotus p1) (split_dotus p2) C1) as [[c ->]|[S ->]].
+  - destruct c; eauto. destruct fixed; eauto.
+  - now right.
+Qed.
+
+Lemma scmp_defined fixed strict v1 v2 :
+  good v1 -> good v2 ->
+  (exists c, scmp fixed strict v1 v2 = Ok c) \/ (strict = true /\ scmp fixed strict v1 v2 = Err Unsortable).
+Proof. apply (scmp_defined_aux fixed (S (length v1 + length v2))). lia. Qed.
